@@ -36,7 +36,7 @@ APrim(a, c) ==
                                  IF i = 0 THEN [a0 EXCEPT !.nodes[M(c.s)].a = Append(@, t)] ELSE [a0 EXCEPT !.nodes[M(c.s)].a[i] = t]
          [] c.op = "append"   -> [a0 EXCEPT !.nodes = AppendChild(@, M(c.s), M(c.c))]
          [] c.op = "before"   -> [a0 EXCEPT !.nodes = InsertBefore(@, M(c.s), M(c.c), M(c.r))]
-         [] c.op = "remove"   -> IF a.nodes[M(c.c)].par = M(c.s) THEN [a0 EXCEPT !.nodes = Detach(@, M(c.c))] ELSE a0   \* removing a non-child: no effect
+         [] c.op = "remove"   -> IF a.nodes[M(c.c)].par = M(c.s) THEN [a0 EXCEPT !.nodes = Detach(@, M(c.c))] ELSE a0   \* ASSUMED: removing a non-child has no effect (what dom.py's guard does; the DOM proper would raise NotFoundError)
          [] c.op = "text"     -> [a0 EXCEPT !.nodes = InsertText(@, M(c.s), M(c.r), c.d)]
          [] c.op = "clone"    -> LET x == a.nodes[M(c.s)] IN
                                  [a0 EXCEPT !.nodes = Append(@, MkNode(x.k, x.ns, x.n, x.a, <<>>)), !.m = Append(@, Len(a.nodes) + 1)]
